@@ -164,6 +164,7 @@ CONTEXTS = [
 TPL = {t[0]: t for t in TEMPLATES}
 CTX = {c[0]: c for c in CONTEXTS}
 PLACEMENTS = ("trail-disable", "trail-ignore", "block", "open")
+QUICK_CORE_ONLY_CONTEXTS = ("fn", "if", "try")
 
 
 def _indent(text, k):
@@ -185,6 +186,8 @@ def items_for(tier):
   core = [t[0] for t in TEMPLATES if t[1]]
   for c in CONTEXTS:
     for t in all_ids:
+      if tier == "quick" and c[0] in QUICK_CORE_ONLY_CONTEXTS and t not in core:
+        continue
       items.append((c[0], (t,)))
   if tier == "quick":
     pair_ctx = {"mod": (core, core)}
@@ -501,7 +504,7 @@ def run(rep, tier, seed):
       "error_classes": sorted(k[6:] for k in tot if k.startswith("class:")),
       "templates": len(TEMPLATES), "core_templates": sum(t[1] for t in TEMPLATES),
       "contexts": [c[0] for c in CONTEXTS],
-      "bounds": ("tier=%s: every template (%d) alone in every context (%d); all ordered pairs of %s in context mod%s; "
+      "bounds": ("tier=%s: every template (%d) alone in every context (%d; quick: non-core templates only in mod/fnret/meth); all ordered pairs of %s in context mod%s; "
                  "for every reported (line, class): 4 placements" % (
                      tier, len(TEMPLATES), len(CONTEXTS),
                      "the %d core templates" % sum(t[1] for t in TEMPLATES) if tier == "quick" else "all templates",
